@@ -3,7 +3,7 @@ from __future__ import annotations
 import random, struct
 import runner, coreutil, gen_core
 from coreutil import Scenario, events, reads, cut, limit_chunks, random_cuts, toks
-from refcodec import server_frame, close_payload, decode_client_frames
+from refcodec import server_frame, close_payload, decode_client_frames, rfc3629_valid, first_bad_utf8_index
 
 TRUSTED = [
     'correspondence: harness/world.py (real lomond driven in-process) vs the compiled model driver on the same operation lines',
@@ -58,6 +58,118 @@ def make(rng, cls, pick=None, force_mid=None):
     return sc, expected, bad
 
 
+# peer-controlled text with format metacharacters: it ends up in event attributes and (for violations) in error messages; whatever
+# the library does with it, the outcome must be the one the property names (one ProtocolError / the reason delivered unchanged)
+FORMAT_TEXTS = [b'{}', b'{0}', b'{x}', b'}{', b'%s', b'%(a)s', b'{"error": "shutdown"}', b'{', b'}', b'{0.__class__}', b'{!r:>{w}}', b'100%',
+                b'%d %% %', b'{{}}', b'{1}{0}', 'caf\u00e9 {} \u20ac'.encode('utf-8'), b'reserved close code ({}): {}', b'']
+RESERVED_CODES = [0, 1, 999, 1004, 1005, 1006, 1014, 1015, 1016, 1100, 2000, 2999]
+
+
+def violating_fragment(frags):
+    """index of the fragment of a TEXT message at which the message stops being (extendable to) well-formed UTF-8 (RFC 3629, via
+       refcodec), or None for a valid message.  A sequence cut short by the end of the message is charged to the final fragment."""
+    whole = b''.join(frags)
+    k = first_bad_utf8_index(whole)
+    if k is None:
+        return None if rfc3629_valid(whole) else len(frags) - 1
+    pos = 0
+    for i, f in enumerate(frags):
+        pos += len(f)
+        if k <= pos:
+            return i
+    raise AssertionError
+
+
+def make_late(rng, cls):
+    """a violation that appears only in a LATER frame of a fragmented message: 1-4 valid fragments first (cut anywhere, also inside
+       a UTF-8 sequence), control frames between all of them, directly before AND after the violating frame, then the rest of the
+       message, more controls and later messages.  Returns (scenario, expected message events, description)"""
+    sc = Scenario([], prate=0)
+    sc.compress = rng.random() < 0.2           # offered, not granted
+    frames, expected = [], []
+    for it in [gen_core.gen_item(rng) for _ in range(rng.randint(0, 2))]:
+        frames += gen_core.serialise_item(rng, it)
+        expected += it.expected()
+
+    def ctrls(p_some, marker=None):
+        out = []
+        for _ in range(rng.choice([1, 1, 2, 3]) if rng.random() < p_some else 0):
+            c = gen_core.gen_control(rng)
+            if marker:
+                c = gen_core.Item(c.kind, marker + c.payload[:20])
+            out.append(c)
+        return out
+    nvalid = rng.randint(1, 4)                  # valid fragments before the violating frame
+    ntail = rng.randint(0, 2)                   # continuation frames after it (the last one final), 0: the server never finishes the message
+    if cls == 'bad-utf8-fragment':
+        bad = rng.choice(gen_core.BAD_UTF8_TEXTS + [b'\xff\xfe', b'\xc0', b'\xe0\x80', b'\xf8', b'a\xed\xbf\xbf', b'\xf4\x90'])
+        whole = gen_core.rand_text(rng, rng.choice([1, 2, 5, 12])) + bad + gen_core.rand_text(rng, rng.choice([0, 1, 4, 9]))
+        assert not rfc3629_valid(whole)
+        k = first_bad_utf8_index(whole)
+        # cut so that (when possible) at least one whole fragment precedes the offending byte, the rest at random
+        pts = set(rng.randint(0, len(whole)) for _ in range(nvalid + ntail))
+        if k is not None and k > 1:
+            pts.add(rng.randint(1, k - 1))
+        frs = cut(whole, pts) if rng.random() < 0.8 else [whole[a:b] for a, b in zip([0] + sorted(pts), sorted(pts) + [len(whole)])]
+        fin_last = 1 if (k is None or rng.random() < 0.7) else 0      # a truncated sequence only shows at the end of the message
+        j = violating_fragment(frs)
+        if j == len(frs) - 1 and k is None:
+            fin_last = 1
+        wire = [server_frame(1 if i == 0 else 0, f, fin=(fin_last if i == len(frs) - 1 else 0)) for i, f in enumerate(frs)]
+        pre, badframe, post = wire[:j], wire[j], wire[j + 1:]
+        desc = 'text message of %d fragments, invalid at fragment %d (fin=%d)' % (len(frs), j, fin_last if j == len(frs) - 1 else 0)
+    else:
+        text = rng.random() < 0.5
+        body = gen_core.rand_text(rng, rng.choice([2, 6, 15])) if text else gen_core.rand_bytes(rng, rng.choice([2, 6, 15]))
+        parts = [body[a:b] for a, b in zip(*(lambda p: ([0] + p, p + [len(body)]))(sorted(rng.randint(0, len(body)) for _ in range(nvalid - 1))))]
+        pre = [server_frame((1 if text else 2) if i == 0 else 0, f, fin=0) for i, f in enumerate(parts)]
+        badframe = gen_core.gen_violation(rng, cls, True)
+        post = [server_frame(0, b'tail%d' % i, fin=1 if i == ntail - 1 else 0) for i in range(ntail)]
+        j = len(pre)
+        desc = '%s frame after %d valid fragments of a %s message' % (cls, j, 'text' if text else 'binary')
+    for i, f in enumerate(pre):
+        frames.append(f)
+        for c in ctrls(0.75 if i == len(pre) - 1 else 0.5):
+            frames += gen_core.serialise_item(rng, c)
+            expected += c.expected()
+    after = []
+    for c in ctrls(0.8, b'SECRETMARKER'):
+        after += gen_core.serialise_item(rng, c)
+    for f in post:
+        after.append(f)
+        for c in ctrls(0.4, b'SECRETMARKER'):
+            after += gen_core.serialise_item(rng, c)
+    after += gen_core.serialise_item(rng, gen_core.Item('text', b'LATERTEXT'))
+    data = sc.good_reply() + b''.join(frames) + badframe + b''.join(after)
+    chunks = limit_chunks(cut(data, random_cuts(rng, len(data), rng.choice([0, 0, 1, 4, 10 ** 6 if len(data) < 3000 else 5]))))
+    sc.env = reads(chunks) + [('wait', 1, ('eof',))]
+    r = rng.random()
+    if r < 0.15:
+        sc.reactions = {rng.choice([2, 3]): [('close', 1000, ('b', b'bye'))]}
+    elif r < 0.3:
+        sc.reactions = gen_core.gen_reactions(rng, 8, density=0.3, allow_close=False, allow_bad=False)
+    elif r < 0.4:
+        sc.autopong = False
+    return sc, expected, desc
+
+
+def make_close_text(rng, code, reason, closing_first=False):
+    """0-2 delivered messages, a Close frame with the given code and reason text, a later text frame"""
+    sc = Scenario([], prate=0)
+    frames, expected = [], []
+    for it in [gen_core.gen_item(rng) for _ in range(rng.randint(0, 2))]:
+        frames += gen_core.serialise_item(rng, it)
+        expected += it.expected()
+    data = b''.join(frames) + server_frame(8, close_payload(code, reason)) + server_frame(1, b'LATERTEXT')
+    if closing_first:
+        sc.env = reads([sc.good_reply()] + limit_chunks(cut(data, random_cuts(rng, len(data), rng.choice([0, 1, 3]))))) + [('wait', 1, ('eof',))]
+        sc.reactions = {2: [('close', 1000, ('b', b''))]}
+    else:
+        data = sc.good_reply() + data
+        sc.env = reads(limit_chunks(cut(data, random_cuts(rng, len(data), rng.choice([0, 0, 1, 3]))))) + [('wait', 1, ('eof',))]
+    return sc, expected
+
+
 def judge(res, cls, js, line, real, expected, bad):
     tk = toks(real)
     evs = [t for t in tk if t.startswith('E:')]
@@ -97,6 +209,8 @@ def explore(res, tier, seed, model_ok=True):
     rng = random.Random(seed)
     per = 14 if tier == 'quick' else 150
     res.rule = ('valid prefix (0-3 delivered messages, optionally an open fragmented message) + one violating frame of each of %d classes + later frames carrying a marker, random segmentation; '
+                'violations in a LATER frame of a fragmented message (1-4 valid fragments cut anywhere, invalid UTF-8 located by refcodec in a non-final or final continuation, every other class on/inside the open message; controls between all fragments, directly before and after the violating frame; message finished or never finished); '
+                'Close frames whose reason text carries format metacharacters, with reserved codes (violation) and valid codes (reason delivered unchanged); '
                 'plus exhaustively all 65536 two-byte frame headers (idle stream state; thorough: also mid-text, mid-binary, with compression negotiated) and all close codes 0..65535; '
                 'non-trivial = every case (each contains a violation or a header to classify); distinct by stream') % len(gen_core.VIOLATIONS)
     scs, meta = [], []
@@ -118,6 +232,57 @@ def explore(res, tier, seed, model_ok=True):
         res.case(line)
         judge(res, cls, js, line, real, exp, bad)
     coreutil.check_corr(res, pairs)
+    # ---- violations that appear only in a LATER frame of a fragmented message, control frames before and after the violating frame
+    late_classes = ['bad-utf8-fragment'] * 3 + [c for c in gen_core.VIOLATIONS if c not in ('orphan-continuation', 'bad-utf8-text')]
+    lscs, lmeta = [], []
+    for cls in late_classes:
+        for _ in range(8 if tier == 'quick' else 120):
+            sc, exp, desc = make_late(rng, cls)
+            lscs.append(sc); lmeta.append((cls, exp, desc))
+            res.count('late:' + cls)
+    lp = coreutil.run_pairs(lscs, model_ok)
+    for (js, line, real, model), (cls, exp, desc) in zip(lp, lmeta):
+        if isinstance(real, dict):
+            res.crashes.append(real); continue
+        res.case(line)
+        n0 = len(res.failures)
+        judge(res, 'bad-utf8-text' if cls == 'bad-utf8-fragment' else cls, js, line, real, exp, None)
+        for f in res.failures[n0:]:
+            f['what'] += ' [later frame of a fragmented message: %s]' % desc
+    coreutil.check_corr(res, lp)
+    # ---- peer-controlled text with format metacharacters in Close reasons: reserved codes (violation: exactly one ProtocolError whatever
+    # the reason says) and valid codes (no violation: the reason is delivered unchanged)
+    fscs, fmeta = [], []
+    texts = FORMAT_TEXTS if tier == 'thorough' else FORMAT_TEXTS[:7] + rng.sample(FORMAT_TEXTS[7:], 3)
+    for reason in texts:
+        rcodes = RESERVED_CODES if tier == 'thorough' else rng.sample(RESERVED_CODES, 3)
+        for code in rcodes + [None]:
+            if code is None:
+                code = rng.choice(gen_core.VALID_CLOSE_CODES)
+            for closing_first in ((False, True) if tier == 'thorough' else (rng.random() < 0.25,)):
+                sc, exp = make_close_text(rng, code, reason, closing_first)
+                fscs.append(sc); fmeta.append((code, reason, exp, closing_first))
+    fp = coreutil.run_pairs(fscs, model_ok)
+    for (js, line, real, model), (code, reason, exp, closing_first) in zip(fp, fmeta):
+        if isinstance(real, dict):
+            res.crashes.append(real); continue
+        res.case(line)
+        if code in RESERVED_CODES:
+            res.count('format-text:reserved-close-code')
+            n0 = len(res.failures)
+            judge(res, 'reserved-close-code', js, line, real, exp, None)
+            for f in res.failures[n0:]:
+                f['what'] += ' [Close %d with reason %r]' % (code, reason)
+        else:
+            res.count('format-text:valid-close-code')
+            evs = events(real)
+            msgs = [e for e in evs if e.split(':')[1] in ('text', 'binary', 'ping', 'pong', 'closing', 'closed')]
+            want = exp + [('E:closed:%s:%s' if closing_first else 'E:closing:%s:%s') % (code, reason.hex())]
+            if msgs[:len(want)] != want or any(e.startswith('E:protocol_error') for e in evs) or any(t.startswith('ESCAPED') for t in toks(real)) \
+                    or not evs[-1].startswith('E:disconnected:closed'):
+                res.failures.append(dict(cls='close-reason-text', what='valid Close %d with reason %r: the reason was not delivered unchanged / the close handshake was disturbed' % (code, reason),
+                                         input=line[:3000], scenario=js, observed=[e[:100] for e in evs[-5:]], expected=want[-1]))
+    coreutil.check_corr(res, fp)
     # ---- the same violations on an object with a history: what an EARLIER connection negotiated or left half-parsed must not
     # make a violation acceptable on the next connection (RSV1 after a connection with permessage-deflate, a continuation after
     # a connection that ended inside a fragmented message, ...)
